@@ -2203,7 +2203,16 @@ fn generate_expression(
                     }
                     name => panic!("Unimplemented global intrinsic: {}", name),
                 }
+            } else if matches!(
+                context.global_variable_modes.get(v),
+                Some(GlobalMode::Constant)
+            ) {
+                // Constants stay inside their namespace so need the full name
+                ast::Expression::Identifier(scoped_name_to_identifier(
+                    context.get_global_name_full(*v)?,
+                ))
             } else {
+                // Other globals are passed as parameters which have no namespace
                 ast::Expression::Identifier(ast::ScopedIdentifier::trivial(
                     context.get_global_name(*v)?,
                 ))
@@ -4508,6 +4517,12 @@ impl<'m> GenerateContext<'m> {
     fn get_global_name(&self, id: ir::GlobalId) -> Result<&str, GenerateError> {
         assert!(!self.module.global_registry[id.0 as usize].is_intrinsic);
         Ok(self.name_map.get_name_leaf(NameSymbol::GlobalVariable(id)))
+    }
+
+    /// Get the full name of a global variable
+    fn get_global_name_full(&self, id: ir::GlobalId) -> Result<ScopedName, GenerateError> {
+        assert!(!self.module.global_registry[id.0 as usize].is_intrinsic);
+        Ok(self.name_map.get_name_qualified(NameSymbol::GlobalVariable(id)))
     }
 
     /// Get the name of a function
